@@ -121,6 +121,9 @@ pub enum GOp {
     /// (registers repeat cyclically), index bits big-endian as the trait documents; bits are witnesses
     /// or constants
     SelectVector { dst: u8, bits: u8, index: u8, regs: Vec<u8>, bits_const: bool },
+    /// CurveVar::precomputed_base_scalar_mul_le on register a: the receiver becomes sum of bit_i * (2^i * base), the bases being
+    /// native constants (fixed-base multiplication); nbits bits of k, witness or constant
+    FixedBaseMul { dst: u8, a: u8, base: Recipe, k: Num, nbits: u16, bits_const: bool },
 }
 
 impl GOp {
@@ -182,6 +185,9 @@ pub enum MatItem {
     Elem { what: String, x: usize, y: usize, native: AE },
     Fq { what: String, w: usize, native: Fq, sign_free: bool },
     Bool { what: String, w: usize, native: bool },
+    /// the coordinate bits a to_bits_le / to_bytes gadget emitted (x then y, `per` bits each, little
+    /// endian): they must be canonical (below q) and denote the element
+    Coords { what: String, bits: Vec<usize>, per: usize, native: AE },
 }
 
 pub struct Mat {
@@ -217,6 +223,8 @@ pub struct Machine {
     pub inputs: Vec<InKind>,
     /// a lazily allocated (possibly undecodable) operand exists: its free value is not tracked
     pub has_lazy: bool,
+    /// bit / byte outputs of to_bits_le / to_bytes: (what, bits, bits per coordinate, native element)
+    pub coord_outputs: Vec<(String, Vec<Boolean<Fq>>, usize, AE)>,
 }
 
 pub enum StepOut {
@@ -260,7 +268,7 @@ pub fn elem_eq_exact(got: &AE, want: &AE) -> Result<(), String> {
 
 impl Machine {
     pub fn new(run: Run, setup: bool) -> Machine {
-        Machine { cs: new_cs(setup), ev: (0..NE).map(|_| None).collect(), fv: (0..NF).map(|_| None).collect(), run, expect_unsat: None, bools: Vec::new(), steps_done: 0, suppress: std::cell::Cell::new(false), inputs: Vec::new(), has_lazy: false }
+        Machine { cs: new_cs(setup), ev: (0..NE).map(|_| None).collect(), fv: (0..NF).map(|_| None).collect(), run, expect_unsat: None, bools: Vec::new(), steps_done: 0, suppress: std::cell::Cell::new(false), inputs: Vec::new(), has_lazy: false, coord_outputs: Vec::new() }
     }
 
     /// operand selection: the (i mod #set)-th register that holds a value, so that programs
@@ -701,6 +709,9 @@ impl Machine {
             GOp::ToBits { a } => {
                 let (va, na, _) = ereg!(*a);
                 let bits = va.to_bits_le().map_err(|e| synth(e, &name))?;
+                if bits.len() == 506 && !self.suppress.get() {
+                    self.coord_outputs.push(("to_bits_le".into(), bits.clone(), 253, na));
+                }
                 if self.run == Run::Honest && !self.suppress.get() {
                     ctx.sub_eval();
                     // what the library emits is the little-endian bits of the affine coordinates x then y (253
@@ -723,6 +734,19 @@ impl Machine {
             GOp::ToBytes { a } => {
                 let (va, na, _) = ereg!(*a);
                 let bytes = va.to_bytes().map_err(|e| synth(e, &name))?;
+                if bytes.len() == 64 && !self.suppress.get() {
+                    let mut all = Vec::with_capacity(512);
+                    let mut ok = true;
+                    for b in &bytes {
+                        match b.to_bits_le() {
+                            Ok(bs) => all.extend(bs),
+                            Err(_) => ok = false,
+                        }
+                    }
+                    if ok {
+                        self.coord_outputs.push(("to_bytes".into(), all, 256, na));
+                    }
+                }
                 if self.run == Run::Honest && !self.suppress.get() {
                     ctx.sub_eval();
                     let got: Result<Vec<u8>, _> = bytes.iter().map(|b| b.value()).collect();
@@ -771,6 +795,38 @@ impl Machine {
                 let is_const = out.cs().is_none();
                 self.ev[*dst as usize % NE] = Some(EReg { var: std::rc::Rc::new(out), native: nat, is_const, poisoned: false });
             }
+            GOp::FixedBaseMul { dst, a, base, k, nbits, bits_const } => {
+                // the receiver's value plays no role (it is overwritten): start from the zero variable, so that no
+                // register is consumed
+                let _ = a;
+                let nb = (*nbits as usize).min(256);
+                let kk = &k.0 % (N::from(1u32) << nb);
+                let b0 = native_of(base);
+                let mut bases: Vec<AE> = Vec::with_capacity(nb);
+                let mut cur = b0;
+                for _ in 0..nb {
+                    bases.push(cur);
+                    cur = cur.double();
+                }
+                let mut bvars: Vec<Boolean<Fq>> = Vec::with_capacity(nb);
+                for i in 0..nb {
+                    let bit = kk.bit(i as u64);
+                    if *bits_const {
+                        bvars.push(Boolean::constant(bit));
+                    } else {
+                        let b = Boolean::new_witness(cs.clone(), || Ok(bit)).map_err(|e| synth(e, &name))?;
+                        self.inputs.push(InKind::Bool(b.clone(), bit));
+                        bvars.push(b);
+                    }
+                }
+                let mut acc: ElementVar = <ElementVar as ark_r1cs_std::groups::CurveVar<AE, Fq>>::zero();
+                acc.precomputed_base_scalar_mul_le(bvars.iter().zip(bases.iter())).map_err(|e| synth(e, &name))?;
+                // the method *replaces* the receiver by the sum of the selected bases (ark-r1cs-std's default)
+                let nat = b0.mul_bigint(kk.to_u64_digits());
+                self.check_elem(&name, &acc, &nat, ctx)?;
+                let is_const = acc.cs().is_none();
+                self.ev[*dst as usize % NE] = Some(EReg { var: std::rc::Rc::new(acc), native: nat, is_const, poisoned: false });
+            }
             GOp::ReadValue { a } => {
                 // on the register's own variable (not a clone), so that lazy state changes persist
                 let idx = {
@@ -814,7 +870,7 @@ impl Machine {
         self.steps_done += 1;
         if poison_used {
             // whatever the gadget produced is derived from an undecodable encoding
-            if let GOp::Bin { dst, .. } | GOp::BinConst { dst, .. } | GOp::Negate { dst, .. } | GOp::Double { dst, .. } | GOp::DoubleInPlace { dst, .. } | GOp::ScalarMul { dst, .. } | GOp::CondSelect { dst, .. } | GOp::CondSelectConst { dst, .. } | GOp::SelectVector { dst, .. } = op {
+            if let GOp::Bin { dst, .. } | GOp::BinConst { dst, .. } | GOp::Negate { dst, .. } | GOp::Double { dst, .. } | GOp::DoubleInPlace { dst, .. } | GOp::ScalarMul { dst, .. } | GOp::CondSelect { dst, .. } | GOp::CondSelectConst { dst, .. } | GOp::SelectVector { dst, .. } | GOp::FixedBaseMul { dst, .. } = op {
                 if let Some(r) = self.ev[*dst as usize % NE].as_mut() {
                     r.poisoned = true;
                 }
@@ -903,6 +959,19 @@ impl Machine {
         }
         for (what, b, native) in &self.bools {
             outputs.extend(mat_bool(format!("boolean output of {what}"), b, *native)?);
+        }
+        for (what, bits, per, native) in &self.coord_outputs {
+            let mut cols = Vec::with_capacity(bits.len());
+            let mut complete = true;
+            for b in bits {
+                match mat_bool(String::new(), b, false)? {
+                    Some(MatItem::Bool { w, .. }) => cols.push(w),
+                    _ => complete = false,
+                }
+            }
+            if complete {
+                outputs.push(MatItem::Coords { what: format!("coordinate bits emitted by {what}"), bits: cols, per: *per, native: *native });
+            }
         }
         Some(Mat { inputs, outputs, first_wit })
     }
@@ -1012,6 +1081,11 @@ pub fn gop() -> BoxedStrategy<GOp> {
         1 => e().prop_map(|a| GOp::ToBits { a }),
         1 => e().prop_map(|a| GOp::ToBytes { a }),
         2 => e().prop_map(|a| GOp::ReadValue { a }),
+        1 => (e(), e(), recipe::recipe_small(), gen::scalar(), prop_oneof![4 => 0u16..12, 2 => 12u16..70, 1 => Just(250u16), 1 => Just(251u16), 1 => Just(256u16)], any::<bool>(), any::<bool>()).prop_map(|(dst, a, base, k, nbits, bits_const, top)| {
+            // half of the time force the top bit of the bit string
+            let k = if top && nbits > 0 { Num(&k.0 | (N::from(1u32) << (nbits as u64 - 1))) } else { k };
+            GOp::FixedBaseMul { dst, a, base, k, nbits, bits_const }
+        }),
         1 => (e(), 0u8..4, any::<u8>(), proptest::collection::vec(e(), 1..=8), any::<bool>()).prop_map(|(dst, bits, index, regs, bits_const)| GOp::SelectVector { dst, bits, index, regs, bits_const }),
     ]
     .boxed()
